@@ -74,7 +74,11 @@ class Ctx:
         cache = self.__dict__.setdefault("_inline_cache", {})
         if key not in cache:
             from .inline import inline_function
-            new, names = inline_function(self.repo, rel, qual, func, only=None if inline is True else set(inline))
+            known_nested_all = set(_reference_helpers().get("__nested__", {}).get(rel, []))
+            fresh_nested = {q.split(".")[-1] for q, _ in self.repo.functions(rel)
+                            if q.startswith(qual + ".") and "." not in q[len(qual) + 1:] and q not in known_nested_all}
+            new, names = inline_function(self.repo, rel, qual, func, only=None if inline is True else set(inline),
+                                         fresh_nested=fresh_nested)
             for name in names:
                 self.functions.add(f"{rel}::{name}")
             cache[key] = new if names else func
